@@ -607,12 +607,13 @@ struct Node {
     h_udp: smoltcp::iface::SocketHandle,
     h_icmp: smoltcp::iface::SocketHandle,
     h_tcp: smoltcp::iface::SocketHandle,
-    h_raw: [smoltcp::iface::SocketHandle; 3],
+    h_raw: Vec<smoltcp::iface::SocketHandle>,
     ll: Option<Ieee802154Address>,
     now: i64,
 }
 
-const RAW_PROTOS: [IpProtocol; 3] = [IpProtocol::Udp, IpProtocol::Icmpv6, IpProtocol::Tcp];
+const RAW_PROTOS: [IpProtocol; 6] =
+    [IpProtocol::Udp, IpProtocol::Icmpv6, IpProtocol::Tcp, IpProtocol::HopByHop, IpProtocol::Ipv6Route, IpProtocol::Ipv6Opts];
 
 fn mk_node(medium: Medium, ll: Option<Ieee802154Address>, ips: &[Ipv6Address], gw: Option<Ipv6Address>, mtu: usize, seed: u64) -> Node {
     let mut dev = QDev::new(medium, mtu);
@@ -645,7 +646,7 @@ fn mk_node(medium: Medium, ll: Option<Ieee802154Address>, ips: &[Ipv6Address], g
     for p in RAW_PROTOS {
         h_raw.push(sockets.add(raw::Socket::new(Some(IpVersion::Ipv6), Some(p), rb_(32, 16384), rb_(1, 64))));
     }
-    Node { iface, dev, sockets, h_udp, h_icmp, h_tcp, h_raw: [h_raw[0], h_raw[1], h_raw[2]], ll, now: 0 }
+    Node { iface, dev, sockets, h_udp, h_icmp, h_tcp, h_raw, ll, now: 0 }
 }
 
 impl Node {
@@ -661,7 +662,7 @@ impl Node {
     /// datagrams the raw sockets captured since the last call (protocol order, then arrival order)
     fn take_raw(&mut self) -> Vec<Vec<u8>> {
         let mut v = vec![];
-        for h in self.h_raw {
+        for h in self.h_raw.clone() {
             let s = self.sockets.get_mut::<raw::Socket>(h);
             while let Ok(d) = s.recv() {
                 v.push(d.to_vec());
@@ -793,6 +794,8 @@ struct E2eCfg {
     dst_m: Option<Ipv6Address>,
     ident: u16,
     mtu: usize,
+    /// 6LoWPAN address contexts (8-octet prefixes) configured on both interfaces
+    ctx: Vec<[u8; 8]>,
 }
 
 fn e2e_cfg(c: &Case) -> E2eCfg {
@@ -812,6 +815,17 @@ fn e2e_cfg(c: &Case) -> E2eCfg {
         },
         ident: c.get_i("ident", 0x1234) as u16,
         mtu: c.get_i("mtu", 127) as usize,
+        ctx: match c.get("ctx").unwrap_or("-") {
+            "-" => vec![],
+            s => s
+                .split(',')
+                .map(|h| {
+                    let mut a = [0u8; 8];
+                    a.copy_from_slice(&unhex(h));
+                    a
+                })
+                .collect(),
+        },
     }
 }
 
@@ -843,6 +857,10 @@ fn mk_pair(medium: Medium, cfg: &E2eCfg) -> Pair {
     let mtu = if medium == Medium::Ip { 4000 } else { cfg.mtu };
     let mut a = mk_node(medium, Some(cfg.lla), &ia, if need_gw { Some(lb) } else { None }, mtu, 0x1111);
     let mut b = mk_node(medium, Some(cfg.llb), &ib, if need_gw { Some(la) } else { None }, mtu, 0x2222);
+    for c in &cfg.ctx {
+        let _ = a.iface.sixlowpan_address_context_mut().push(SixlowpanAddressContext(*c));
+        let _ = b.iface.sixlowpan_address_context_mut().push(SixlowpanAddressContext(*c));
+    }
     a.sockets.get_mut::<icmp::Socket>(a.h_icmp).bind(icmp::Endpoint::Ident(cfg.ident)).unwrap();
     b.sockets.get_mut::<icmp::Socket>(b.h_icmp).bind(icmp::Endpoint::Ident(cfg.ident ^ 0xffff)).unwrap();
     let dst_b = if let Some(m) = cfg.dst_m {
@@ -1099,6 +1117,33 @@ fn run_op(p: &mut Pair, cfg: &E2eCfg, op: &str, out: Option<&mut dyn Write>) -> 
         }
         return r;
     }
+    if t[0] == "recv" {
+        // a hand-made 6LoWPAN payload arriving at B from A's link-layer address
+        if p.a.dev.medium != Medium::Ieee802154 {
+            return r;
+        }
+        let dst = if kvi(&t, "bc") == 1 { Ieee802154Address::BROADCAST } else { cfg.llb };
+        let f = mk_frame(cfg.lla, dst, 0x55, &unhex(kv(&t, "pl")));
+        p.b.dev.rx.push_back(f);
+        match pump(&mut p.b) {
+            Ok(_) => {}
+            Err(()) => {
+                r.panicked = true;
+                return r;
+            }
+        }
+        let rx_b = p.b.take_raw();
+        if rx_b.is_empty() {
+            writeln!(out, "rx ab -").unwrap();
+        }
+        for d in rx_b {
+            writeln!(out, "rx ab {}", hex(&d)).unwrap();
+            r.delivered.push(("ab".into(), d));
+        }
+        p.a.now += 1;
+        p.b.now += 1;
+        return r;
+    }
     if !queue_op(p, cfg, &t) {
         panic!("unknown e2e op {}", op);
     }
@@ -1199,6 +1244,244 @@ fn e2e_run_case(c: &Case, out: &mut dyn Write) {
     }
 }
 
+
+/// a 6LoWPAN payload as a foreign compressor might build it (encodings smoltcp's own compressor never
+/// chooses: traffic class / flow label in-line, stateful contexts, elided UDP checksum, NHC extension
+/// headers, every SAM/DAM form), addressed from A to B so that B's ingress filters accept it
+fn gen_recv_op(rng: &mut Rng, cfg: &E2eCfg) -> String {
+    let la = ll_link_local(&cfg.lla).octets();
+    let lb = ll_link_local(&cfg.llb).octets();
+    let r = rng.bytes(64);
+    let nctx = cfg.ctx.len();
+    // --- source ---
+    let (sac, sam, mut sinl, src): (u8, u8, Vec<u8>, [u8; 16]) = match rng.below(if nctx > 0 { 7 } else { 4 }) {
+        0 => (0, 3, vec![], la),
+        1 => (0, 1, la[8..].to_vec(), la),
+        2 => (0, 0, la.to_vec(), la),
+        3 => {
+            let mut a = [0u8; 16];
+            a[0] = 0xfe;
+            a[1] = 0x80;
+            a[11] = 0xff;
+            a[12] = 0xfe;
+            a[14] = r[0];
+            a[15] = r[1] | 1;
+            (0, 2, vec![a[14], a[15]], a)
+        }
+        4 => {
+            let mut a = [0u8; 16];
+            a[..8].copy_from_slice(&cfg.ctx[0]);
+            a[8..].copy_from_slice(&la[8..]);
+            (1, 3, vec![], a)
+        }
+        5 => {
+            let mut a = [0u8; 16];
+            a[..8].copy_from_slice(&cfg.ctx[0]);
+            a[8..].copy_from_slice(&r[2..10]);
+            (1, 1, r[2..10].to_vec(), a)
+        }
+        _ => {
+            let mut a = [0u8; 16];
+            a[..8].copy_from_slice(&cfg.ctx[0]);
+            a[14] = r[2];
+            a[15] = r[3] | 1;
+            (1, 2, vec![a[14], a[15]], a)
+        }
+    };
+    // --- destination ---
+    let own_ctx_addr = cfg.xb.map(|x| nctx > 0 && x.octets()[..8] == cfg.ctx[0] && x.octets()[8..] == lb[8..]).unwrap_or(false);
+    let (m, dac, dam, dinl, dst, bc): (u8, u8, u8, Vec<u8>, [u8; 16], bool) = match rng.below(if own_ctx_addr { 9 } else { 7 }) {
+        0 => (0, 0, 3, vec![], lb, false),
+        1 => (0, 0, 1, lb[8..].to_vec(), lb, false),
+        2 => (0, 0, 0, lb.to_vec(), lb, false),
+        3..=6 => {
+            let mut a = [0u8; 16];
+            a[0] = 0xff;
+            a[1] = 0x02;
+            a[15] = 1;
+            match rng.below(4) {
+                0 => (1, 0, 3, vec![1], a, true),
+                1 => (1, 0, 2, vec![2, 0, 0, 1], a, true),
+                2 => (1, 0, 1, vec![2, 0, 0, 0, 0, 1], a, true),
+                _ => (1, 0, 0, a.to_vec(), a, true),
+            }
+        }
+        7 => (0, 1, 3, vec![], cfg.xb.unwrap().octets(), false),
+        _ => (0, 1, 1, lb[8..].to_vec(), cfg.xb.unwrap().octets(), false),
+    };
+    let need_cid = sac == 1 || dac == 1;
+    let cid = need_cid || rng.chance(1, 6);
+    // --- traffic class / flow label, hop limit ---
+    let tf = *rng.pick(&[3u8, 3, 3, 0, 1, 2]);
+    let tfb: Vec<u8> = match tf {
+        0 => vec![r[10], r[11] & 0x0f, r[12], r[13]],
+        1 => vec![r[10] & 0xcf, r[12], r[13]],
+        2 => vec![r[10]],
+        _ => vec![],
+    };
+    let hlim = rng.below(4) as u8;
+    // --- upper layer ---
+    let plen = *rng.pick(&[0usize, 1, 5, 17, 40]);
+    let payload = rng.bytes(plen);
+    let (sp, dp) = (gen_port(rng).max(1), gen_port(rng).max(1));
+    let udp_ck = |ck_ok: bool, rng: &mut Rng| -> u16 {
+        if !ck_ok {
+            return (rng.next() as u16) | 1;
+        }
+        let mut b = vec![0u8; 8 + payload.len()];
+        let repr = UdpRepr { src_port: sp, dst_port: dp };
+        repr.emit(
+            &mut UdpPacket::new_unchecked(&mut b[..]),
+            &IpAddress::Ipv6(Ipv6Address::from_octets(src)),
+            &IpAddress::Ipv6(Ipv6Address::from_octets(dst)),
+            payload.len(),
+            |x| x.copy_from_slice(&payload),
+            &ChecksumCapabilities::default(),
+        );
+        u16::from_be_bytes([b[6], b[7]])
+    };
+    let nhc_udp = |rng: &mut Rng| -> Vec<u8> {
+        let c = rng.chance(1, 3) as u8;
+        let (p, pb): (u8, Vec<u8>) = if (0xf0b0..=0xf0bf).contains(&sp) && (0xf0b0..=0xf0bf).contains(&dp) && rng.chance(3, 4) {
+            (3, vec![(((sp - 0xf0b0) as u8) << 4) | (dp - 0xf0b0) as u8])
+        } else if (0xf000..=0xf0ff).contains(&sp) && rng.chance(3, 4) {
+            (2, vec![(sp - 0xf000) as u8, (dp >> 8) as u8, dp as u8])
+        } else if (0xf000..=0xf0ff).contains(&dp) && rng.chance(3, 4) {
+            (1, vec![(sp >> 8) as u8, sp as u8, (dp - 0xf000) as u8])
+        } else {
+            (0, vec![(sp >> 8) as u8, sp as u8, (dp >> 8) as u8, dp as u8])
+        };
+        let mut b = vec![0xf0 | (c << 2) | p];
+        b.extend(pb);
+        if c == 0 {
+            let ck = udp_ck(rng.chance(2, 3), rng);
+            b.extend(ck.to_be_bytes());
+        }
+        b.extend(&payload);
+        b
+    };
+    let mut body: Vec<u8> = vec![];
+    let mut unc = 40usize; // uncompressed size
+    let nh_inline: Option<u8>;
+    let mut has_ext = false;
+    match rng.below(6) {
+        0 | 1 => {
+            nh_inline = None;
+            body.extend(nhc_udp(rng));
+            unc += 8 + payload.len();
+        }
+        2 => {
+            // NHC extension header (hop-by-hop / destination options with PadN) then UDP
+            nh_inline = None;
+            // hop-by-hop options whose length makes a whole number of 8-octet units with the 2-octet header
+            // (anything else is rejected by the IPv6 layer, which is not this property's subject)
+            let eid = 0u8;
+            has_ext = true;
+            let elen = *rng.pick(&[6u8, 6, 14]);
+            let udp_compressed = rng.chance(1, 2);
+            body.push(0xe0 | (eid << 1) | udp_compressed as u8);
+            if !udp_compressed {
+                body.push(17);
+            }
+            body.push(elen);
+            let mut opt = vec![0u8; elen as usize];
+            if elen >= 2 {
+                opt[0] = 1;
+                opt[1] = elen - 2;
+            }
+            body.extend(&opt);
+            unc += 2 + elen as usize;
+            if udp_compressed {
+                body.extend(nhc_udp(rng));
+            } else {
+                let ck = udp_ck(true, rng);
+                body.extend([(sp >> 8) as u8, sp as u8, (dp >> 8) as u8, dp as u8]);
+                body.extend(((8 + payload.len()) as u16).to_be_bytes());
+                body.extend(ck.to_be_bytes());
+                body.extend(&payload);
+            }
+            unc += 8 + payload.len();
+        }
+        3 => {
+            nh_inline = Some(17);
+            let ck = udp_ck(rng.chance(2, 3), rng);
+            body.extend([(sp >> 8) as u8, sp as u8, (dp >> 8) as u8, dp as u8]);
+            body.extend(((8 + payload.len()) as u16).to_be_bytes());
+            body.extend(ck.to_be_bytes());
+            body.extend(&payload);
+            unc += 8 + payload.len();
+        }
+        4 => {
+            nh_inline = Some(58);
+            body.extend([129, 0, r[20], r[21], r[22], r[23], r[24], r[25]]);
+            body.extend(&payload);
+            unc += 8 + payload.len();
+        }
+        _ => {
+            nh_inline = Some(6);
+            body.extend(rng.bytes(20));
+            body.extend(&payload);
+            unc += 20 + payload.len();
+        }
+    }
+    let w: u16 = 0x6000
+        | ((tf as u16) << 11)
+        | ((nh_inline.is_none() as u16) << 10)
+        | ((hlim as u16) << 8)
+        | ((cid as u16) << 7)
+        | ((sac as u16) << 6)
+        | ((sam as u16) << 4)
+        | ((m as u16) << 3)
+        | ((dac as u16) << 2)
+        | dam as u16;
+    let mut pl = vec![(w >> 8) as u8, w as u8];
+    if cid {
+        pl.push(if need_cid { 0 } else { r[30] & 0x33 });
+    }
+    pl.extend(tfb);
+    if let Some(p) = nh_inline {
+        pl.push(p);
+    }
+    if hlim == 0 {
+        pl.push(r[31].max(1));
+    }
+    pl.append(&mut sinl);
+    pl.extend(dinl);
+    let hdr_end = pl.len();
+    pl.extend(body);
+    // mutate behind the IPHC header only (addresses stay valid)
+    // (and not inside hop-by-hop options: how unknown options are treated is the IPv6 layer's business)
+    if rng.chance(1, 5) && pl.len() > hdr_end && !has_ext {
+        match rng.below(3) {
+            0 => {
+                let n = hdr_end + rng.below((pl.len() - hdr_end) as u64) as usize;
+                pl.truncate(n);
+            }
+            1 => {
+                let i = hdr_end + rng.below((pl.len() - hdr_end).min(6) as u64) as usize;
+                pl[i] = rng.next() as u8;
+            }
+            _ => pl.extend(rb(rng, 1, 4)),
+        }
+    }
+    // fragment wrapper
+    let out = match rng.below(10) {
+        0 | 1 => {
+            let mut f = vec![0xc0 | (unc >> 8) as u8, unc as u8, 0x77, rng.next() as u8];
+            f.extend(pl);
+            f
+        }
+        2 => {
+            let sz = (unc as i64 + *rng.pick(&[-8i64, -1, 1, 8])).max(0) as usize;
+            let mut f = vec![0xc0 | ((sz >> 8) as u8 & 7), sz as u8, 0x78, rng.next() as u8];
+            f.extend(pl);
+            f
+        }
+        _ => pl,
+    };
+    format!("recv bc={} pl={}", bc as u8, hex(&out))
+}
+
 fn gen_sched(rng: &mut Rng) -> String {
     match rng.below(10) {
         0..=3 => "io".into(),
@@ -1269,7 +1552,25 @@ fn gen_e2e_case_x(rng: &mut Rng, id: String, tier: &str, with_eburst: bool) -> C
         a[15] = w;
         Some(Ipv6Address::from_octets(a))
     };
-    let (xa, xb) = (mk_x(rng, class, 1), mk_x(rng, class, 2));
+    let (xa, mut xb) = (mk_x(rng, class, 1), mk_x(rng, class, 2));
+    // address contexts: sometimes B's second address is context prefix + EUI-64 of its link-layer address
+    let ctx: Vec<[u8; 8]> = match rng.below(4) {
+        0 | 1 => vec![],
+        2 => vec![[0x20, 0x01, 0x0d, 0xb8, 0, 0, 0, 1]],
+        _ => {
+            let b = rng.bytes(8);
+            let mut a = [0u8; 8];
+            a.copy_from_slice(&b);
+            a[0] = 0x20 | (a[0] & 0x1f);
+            vec![a, [0x20, 0x01, 0x0d, 0xb8, 0, 0, 0, 1]]
+        }
+    };
+    if !ctx.is_empty() && xa.is_none() && !mcast && rng.chance(1, 2) {
+        let mut a = [0u8; 16];
+        a[..8].copy_from_slice(&ctx[0]);
+        a[8..].copy_from_slice(&ll_link_local(&llb).octets()[8..]);
+        xb = Some(Ipv6Address::from_octets(a));
+    }
     let dst_x = class != 0 && rng.chance(2, 3);
     let ident = rng.next() as u16;
     let dst_s = if mcast { "m:ff020000000000000000000000000001".to_string() } else if dst_x { "x".into() } else { "ll".into() };
@@ -1282,12 +1583,17 @@ fn gen_e2e_case_x(rng: &mut Rng, id: String, tier: &str, with_eburst: bool) -> C
         ("dst".into(), dst_s),
         ("ident".into(), ident.to_string()),
         ("mtu".into(), if rng.chance(1, 2) { "127".into() } else { "125".into() }),
+        ("ctx".into(), if ctx.is_empty() { "-".into() } else { ctx.iter().map(|c| hex(c)).collect::<Vec<_>>().join(",") }),
     ];
     let mut c = Case { id, cfg, ops: vec![] };
     let ecfg = e2e_cfg(&c);
     let mut pip = mk_pair(Medium::Ip, &ecfg);
     let nops = rng.range(1, 4);
     for _ in 0..nops {
+        if rng.chance(1, 4) {
+            c.ops.push(gen_recv_op(rng, &ecfg));
+            continue;
+        }
         let hl = match rng.below(5) {
             0 => 1,
             1 => 64,
@@ -1361,7 +1667,7 @@ fn oracle_e2e_case(c: &Case, fails: &mut Vec<String>, stats: &mut BTreeMap<Strin
             fail("poll-panics", format!("op#{} `{}`", k, &op[..op.len().min(80)]));
             return;
         }
-        if t[0] == "wait" {
+        if t[0] == "wait" || t[0] == "recv" {
             continue;
         }
         *stats.entry(format!("op_{}", t[0])).or_default() += 1;
